@@ -647,6 +647,55 @@ def check_arena_from(mir_text, src, flavour):
                  holds=not viol, witnesses=viol[:4])]
 
 
+def check_mmap_options(mir_text, src):
+    """R9: Options::to_mmap_options (what the writable opens and truncate hand to mmap): the mapping starts at Options::offset
+    (offset(o) called iff o > 0, with o) and has the length of the capacity option (len(cap) called iff a capacity is given)"""
+    def init(ex, prog, fr):
+        opts = Sym("opts", "options::Options")
+        fr.locals[900] = opts
+        fr.locals[1] = LocalRef(("E",), 900, [])
+        return {"opts": opts}
+
+    prog, ex, ends, ctx, fname = explore(mir_text, src, r"^open_options::<impl at [^>]*>::to_mmap_options$", init)
+    opts = ctx["opts"]
+    viol = []
+    n = 0
+    for e in ends:
+        if e.kind != "done":
+            continue
+        if feasible(ex, e.guard) != z3.sat:
+            continue
+        n += 1
+        effs = e.stack[0].locals.get("EFF", ())
+        new = [x for x in effs if x["func"].endswith("MmapOptions::new")]
+        if not new or e.info is not new[0]["result"]:
+            viol.append({"why": "the returned MmapOptions is not the one built in the function"})
+        off = opt_field(prog, opts, "offset")
+        capo = opt_field(prog, opts, "capacity")
+        if off is None or not isinstance(capo, Enum):
+            viol.append({"why": "Options::offset / Options::capacity not consulted"})
+            continue
+        offs = [x for x in effs if x["func"].endswith("MmapOptions::offset")]
+        lens = [x for x in effs if x["func"].endswith("MmapOptions::len")]
+        cd = capo.discr if not isinstance(capo.discr, int) else bv(capo.discr, 64)
+        if offs:
+            ok, _ = prove(ex, e.guard, [], z3.And(z64(offs[-1]["args"][1]) == z64(off), z3.UGT(z64(off), 0)))
+        else:
+            ok, _ = prove(ex, e.guard, [], z64(off) == 0)
+        if not ok or len(offs) > 1:
+            viol.append({"why": "the mapping does not start at Options::offset"})
+        if lens:
+            some = capo.variants[1][0]
+            ok, _ = prove(ex, e.guard, [], z3.And(cd == 1, z64(lens[-1]["args"][1]) == z64(some)))
+        else:
+            ok, _ = prove(ex, e.guard, [], cd == 0)
+        if not ok or len(lens) > 1:
+            viol.append({"why": "the mapping length is not the capacity option (or a length is set without one)"})
+    return [dict(function=fname, paths=n, ok_paths=n, id="R9",
+                 text="Options::to_mmap_options: mapping offset = Options::offset (set iff > 0), mapping length = the capacity option (set iff given)",
+                 holds=not viol and n > 0, witnesses=viol[:4], vacuous=(n < 4))]
+
+
 def check_flush(mir_text, src):
     """R8: the explicit flush family only ever asks the map object to write back: no store into the mapping, no file-level mutator,
     so "with or without an explicit flush" cannot change what a later reopen finds"""
@@ -785,6 +834,7 @@ def main():
         out["obligations"] += check_unmount(mir_text, src)
         out["obligations"] += check_file_open(mir_text, src)
         out["obligations"] += check_flush(mir_text, src)
+        out["obligations"] += check_mmap_options(mir_text, src)
         out["obligations"] += check_arena_from(mir_text, src, "sync")
         out["obligations"] += check_arena_from(mir_text, src, "unsync")
     except Unsupported as e:
